@@ -105,6 +105,19 @@ CLAIMS = {
              "(compared bit for bit) but its error bound is a hypothesis of latEq_roundtrip, not proved from the rounding model. Operations on 70000-vertex lattices are "
              "limited to the state-level checks (dense adjacency would need 4.9 GB). Fix D11 (edgeless lattices could not be pickled) is recorded in known_findings.json.",
         ref="§7 C09"),
+    "C10": dict(
+        technique="Lean 4 proof about kernels translated from the source (crossing/next-cell bookkeeping for every grid size) + exact index-level correspondence over the whole quantifier",
+        text="Kernel-checked theorems about _next_cell_number, _crossing and the two nested next_direction functions as regenerated from example_graphs.py on every run: for all "
+             "n_x,n_y ≥ 1, every cell and every shift in {-1,0,1}²: x+s = x'+n_x·c_x and y+s = y'+n_y·c_y (target column/row and crossing flag account exactly for the shift), "
+             "the target cell is in range, translation by a fixed shift is a bijection of the cells (so each tiled cell receives each edge type exactly once), both nested "
+             "next_direction's are the same kernel; tile_unit_cell has n_x·n_y·|E| edges, each of the stated shape and inside n_x·n_y·k vertices. Edges, crossings and colourings "
+             "of honeycomb (n=2..16), hex-square-oct (2..8), tri-non (all (n_x,n_y) in 2..6 and scalar), square (2..8²), tile_unit_cell (regular and random Voronoi cells, "
+             "all 1..4²), single_plaquette / wheel (3..40), ladder (3..30, both wobble settings) are compared exactly with the index-level model; closedness, polygon census, "
+             "coordination, V−E+F=0, areas summing to 1, proper colourings, translated-copy property and make_honeycomb's flux sector are evaluated on the implementation.",
+        note="Trusted: Lean kernel/Mathlib/standard axioms; translator; harness. Positions (irrational scale factors) are not modelled; the polygon census and areas are decided on "
+             "the implementation's plaquettes (C01 ties those to the model). honeycomb trivalence / colouring properness for *all* n is decided by correspondence for n ≤ 16 plus the "
+             "bijection theorem, not yet by a closed Lean proof of the degree count. n_vertical = round(n/√3) is computed exactly in the model (integer inequality).",
+        ref="§7 C10"),
 }
 
 PENDING_REASON = "check not built yet in this revision (work in progress; see DESIGN.md §7 for the planned Lean model and tie)"
